@@ -42,19 +42,30 @@ Init == /\ ptr0 \in SeqsUpTo(Tokens, MaxToks)
 Join(part, how) ==
   /\ Len(hist) < MaxLen
   /\ ptr' = JoinPart(ptr, part)
-  /\ hist' = Append(hist, [act |-> how, arg |-> part, single |-> part \in {PtrEscape(t) : t \in JoinTokens},
+  /\ hist' = Append(hist, [act |-> how, arg |-> part, arg2 |-> <<>>, single |-> part \in {PtrEscape(t) : t \in JoinTokens},
                            obs |-> Observe(JoinPart(ptr, part))])
+  /\ UNCHANGED ptr0
+
+\* join with several parts is the left fold of the single-part join
+Join2(p1, p2) ==
+  /\ Len(hist) < MaxLen
+  /\ ptr' = JoinPart(JoinPart(ptr, p1), p2)
+  /\ hist' = Append(hist, [act |-> "join2", arg |-> p1, arg2 |-> p2, single |-> FALSE,
+                           obs |-> Observe(JoinPart(JoinPart(ptr, p1), p2))])
   /\ UNCHANGED ptr0
 
 Parent ==
   /\ Len(hist) < MaxLen
   /\ ptr' = ParentPtr(ptr)
-  /\ hist' = Append(hist, [act |-> "parent", arg |-> <<>>, single |-> FALSE, obs |-> Observe(ParentPtr(ptr))])
+  /\ hist' = Append(hist, [act |-> "parent", arg |-> <<>>, arg2 |-> <<>>, single |-> FALSE, obs |-> Observe(ParentPtr(ptr))])
   /\ UNCHANGED ptr0
 
+Parts2 == {PtrEscape(<<97>>), PtrEscape(<<>>), PrintPtr(<<<<49>>>>), PtrEscape(<<126>>)}
 Next == (\E part \in Parts : \E how \in {"join", "slash"} : Join(part, how)) \/ Parent
+        \/ (\E p1 \in Parts2, p2 \in Parts2 : Join2(p1, p2))
 NextSim == \E c \in {RandomElement(1..5)} :
              IF c = 1 THEN Parent
+             ELSE IF c = 2 THEN \E p1 \in {RandomElement(Parts)}, p2 \in {RandomElement(Parts)} : Join2(p1, p2)
              ELSE \E part \in {RandomElement(Parts)} : \E how \in {RandomElement({"join", "slash"})} : Join(part, how)
 Spec == Init /\ [][Next]_vars
 
